@@ -108,7 +108,14 @@ func formatArrayTypeName(v string) string {
 
 //ExtractValue info
 func ExtractValue(v reflect.Value, extractor ValueExtractor) {
-	v = RawValue(v)
+	// a nil pointer is walked through a fresh value of its element type, so that
+	// the types behind it are found from any witness value
+	for v.Kind() == reflect.Ptr || v.Kind() == reflect.Interface {
+		if v.Kind() == reflect.Ptr && v.IsNil() {
+			v = reflect.New(v.Type().Elem())
+		}
+		v = v.Elem()
+	}
 
 	if !extractor(v) {
 		return
